@@ -524,7 +524,8 @@ func (e *MetaExecutor) dial(nodeID uint64) (net.Conn, error) {
 		if err != nil {
 			return nil, err
 		}
-		e.pool.setPool(nodeID, p)
+		// Concurrent callers may both have found no pool: keep exactly one.
+		e.pool.setPoolIfAbsent(nodeID, p)
 	}
 	return e.pool.conn(nodeID)
 }
